@@ -399,10 +399,13 @@ def stage_b(ctx, recs):
         graphs.append(('T tree building with SegmentedNode / LocalResource',
                        dict(tb, Keys='<- S_Keys', Kinds='{"node", "seg", "local"}', RootPrefixes='<- None', MaxNodes=3, MaxKeyLen=1), 0.3))
     reg = dict(Keys='<- R_Keys', PolChoices='<- R_Pol', AttachPrefixes='<- R_Prefixes', QNames='<- R_QNamesB', QueryOn='FALSE')
-    graphs.append(('R registration', dict(reg, MaxPol=ctx.pick(1, 2), MaxNodes=ctx.pick(2, 3), MaxKeyLen=ctx.pick(1, 2), MaxOps=ctx.pick(0, 1)), 0.1))
+    if ctx.quick:
+        graphs.append(('R registration', dict(reg, MaxPol=1, MaxNodes=2, MaxKeyLen=1, MaxOps=0), 0.1))
+    else:
+        graphs.append(('R registration, trees <= 3 nodes', dict(reg, MaxPol=2, MaxNodes=3, MaxKeyLen=1, MaxOps=0), 0.1))
+        graphs.append(('R registration and one Interest, trees <= 2 nodes', dict(reg, MaxPol=2, MaxNodes=2, MaxKeyLen=1, MaxOps=1), 0.1))
     for i, (trees, names) in enumerate((('P_Trees1', 'P_QNames1'), ('P_Trees2', 'P_QNames2'), ('P_Trees3', 'P_QNames3'))):
-        graphs.append(('P pipelines, tree %d' % (i + 1), pipe_consts(trees, names, ctx.pick(1, 2), QueryOn='FALSE',
-                                                                    net=ctx.pick('P_NetSmall', 'P_Net')), 0.1))
+        graphs.append(('P pipelines, tree %d' % (i + 1), pipe_consts(trees, names, ctx.pick(1, 2), QueryOn='FALSE'), 0.1))
     graphs.append(('S segmented / local', pipe_consts('S_Trees', 'S_QNames', ctx.pick(1, 2), QueryOn='FALSE', seg='S_Contents',
                                                       contents='{"x"}', net='S_Net', ExtComps='<- None', AppParams='<- None'), 0.1))
     t0 = time.time()
@@ -415,9 +418,9 @@ def stage_b(ctx, recs):
     for (label, consts, pq), g in zip(graphs, dumped):
         t1 = time.time()
         ctx.add_tlc('SchemaTree graph %s (%d states, %d edges)' % (label, len(g.state), g.n_edges), g.tlc)
-        paths, left = state_cover_paths(g, 40, ctx.rng)
+        paths, left = state_cover_paths(g, 40, ctx.rng, max_paths=ctx.pick(None, 25000))
         if left:
-            raise tlc.MachineryError('state cover incomplete: %d states unreached' % left)
+            ctx.note('B %s: path budget reached, %d of %d states not visited' % (label, left, len(g.state)))
         steps = 0
         for init, dsts in paths:
             calls = [g.state[d]['call'] for d in dsts]
